@@ -222,7 +222,7 @@ Proof.
   { intros x Hx Hc. unfold ptr_res in Hx. destruct x as [[w1 n]| |]; try discriminate.
     cbn [fst snd] in Hx. injection Hx as <- <-.
     destruct (Hc _ _ eq_refl) as [(_ & -> & S)|F1]; [|congruence].
-    split; [reflexivity|eapply q_same_trans; eassumption]. }
+    split; [reflexivity|exact (q_same_trans _ _ _ S0 S)]. }
   assert (U : forall x, unit_res x = Ok (w', r) -> (forall w1, x = Ok w1 -> failed w1 = failed w) -> False).
   { intros x Hx Hc. unfold unit_res in Hx. destruct x as [w1| |]; try discriminate.
     injection Hx as <- <-. rewrite (Hc _ eq_refl) in Ff. congruence. }
